@@ -14,9 +14,9 @@ import (
 func init() {
 	register(&property{
 		ID:          "C09",
-		Explanation: "(a) every per-variable table of the solver (discovered from the constructor's allocations and from indexing by Var/Lit) is grown, by the right number of elements per new variable, by every function that raises the variable count, the count is raised last and views built from a table are rebuilt after its growth; (b) in AppendClause a literal's variable is announced before the literal is used; (c) Unsat is absorbing: code reachable from AppendClause only ever stores Unsat into the status and Solve returns at once on Unsat.",
+		Explanation: "(a) every per-variable table of the solver (discovered from the constructor's allocations and from indexing by Var/Lit) is grown, by the right number of elements per new variable, by every function that raises the variable count, the count is raised last and views built from a table are rebuilt after its growth; (b) in AppendClause a literal's variable is announced before the literal is used; (c) Unsat is absorbing: code reachable from AppendClause only ever stores Unsat into the status and Solve returns at once on Unsat; (d) AppendClause keeps its lower/upper weight bounds by the three-valued rule (true: both, false: none, unbound: upper only); (e) every forced literal of an added constraint is bound and propagated; (f) the published model is re-allocated from the current variable set on every Sat answer (R1.5).",
 		NotDecided:  "equivalence of incremental solving with solving from scratch (depends on the search history and on the simplification arithmetic of AppendClause).",
-		Rules:       []ruleFn{ruleR9_1, ruleR9_2, ruleR9_3},
+		Rules:       []ruleFn{ruleR9_1, ruleR9_2, ruleR9_3, ruleR9_4, ruleR9_5, ruleR1_5},
 	})
 }
 
@@ -532,4 +532,230 @@ func (w *World) repeatedUnder(root, fn *ssa.Function, ins ssa.Instruction, depth
 		}
 	}
 	return false
+}
+
+// R9.4: three-valued weight bounds of AppendClause.
+func ruleR9_4(w *World, r *Report) {
+	r.Rule("R9.4", "in Solver.AppendClause the two bounds compared with the degree after the scan are maintained as: literal already true -> both bounds grow by its weight; literal already false -> neither; literal unbound -> only the upper bound grows", 3)
+	fn := w.Func("solver", "Solver.AppendClause")
+	if fn == nil {
+		r.Unk("R9.4", "solver.(*Solver).AppendClause", "-", "method not found")
+		return
+	}
+	sat, _ := w.statusConst("Sat")
+	unsat, _ := w.statusConst("Unsat")
+	// accumulators: header phis A (lower bound: `A >= card`) and B (upper bound: `B < card`)
+	var A, B *ssa.Phi
+	allInstrs(fn, func(ins ssa.Instruction) {
+		bo, ok := ins.(*ssa.BinOp)
+		if !ok {
+			return
+		}
+		used := false
+		for _, rr := range *bo.Referrers() {
+			if _, ok := rr.(*ssa.If); ok {
+				used = true
+			}
+		}
+		p, isPhi := bo.X.(*ssa.Phi)
+		if !used || !isPhi {
+			return
+		}
+		if _, isCall := bo.Y.(*ssa.Call); !isCall {
+			return
+		}
+		switch bo.Op {
+		case token.GEQ:
+			A = p
+		case token.LSS:
+			B = p
+		}
+	})
+	if A == nil || B == nil || A.Block() != B.Block() {
+		r.Unk("R9.4", "(*solver.Solver).AppendClause bounds", w.Pos(fn.Pos()), "cannot identify the lower/upper weight bounds compared with the degree")
+		return
+	}
+	header := A.Block()
+	// the status value switched on
+	var statusCall *ssa.Call
+	for _, ci := range callsIn(fn) {
+		if c, ok := ci.(*ssa.Call); ok && typeShort(c.Type()) == "solver.Status" && loopBlocks(fn, header)[c.Block()] {
+			statusCall = c
+		}
+	}
+	if statusCall == nil {
+		r.Unk("R9.4", "(*solver.Solver).AppendClause bounds", w.Pos(fn.Pos()), "no literal-status call in the scan loop")
+		return
+	}
+	type delta struct{ a, b string }
+	got := map[string]map[delta]bool{"true": {}, "false": {}, "unbound": {}}
+	weightAtom := func(l linForm) (string, bool) {
+		// exactly one term with coefficient 1 that is a call result (the weight), constant 0
+		if l.c != 0 {
+			return "", false
+		}
+		name := ""
+		for k, v := range l.terms {
+			if v == 0 {
+				continue
+			}
+			if v != 1 || name != "" {
+				return "", false
+			}
+			name = k
+		}
+		return name, name != ""
+	}
+	body := header.Succs[0]
+	trunc := false
+	_, trunc = exploreEdges(body, &pstate{phi: map[*ssa.Phi]ssa.Value{}, facts: map[string]string{}},
+		func(b *ssa.BasicBlock) bool { return b == header || !loopBlocks(fn, header)[b] },
+		func(ins ssa.Instruction, st *pstate) {},
+		func(from, to *ssa.BasicBlock, st *pstate) {
+			if to != header {
+				return
+			}
+			cls := ""
+			f := st.facts[st.vkey(statusCall)]
+			switch {
+			case f == fmt.Sprintf("=%d", sat):
+				cls = "true"
+			case f == fmt.Sprintf("=%d", unsat):
+				cls = "false"
+			default:
+				cls = "unbound"
+			}
+			da := lfAdd(lfOf(phiIncoming(A, from, st), 0), lfOf(A, 0), -1)
+			db := lfAdd(lfOf(phiIncoming(B, from, st), 0), lfOf(B, 0), -1)
+			got[cls][delta{da.String(), db.String()}] = true
+		})
+	if trunc {
+		r.Unk("R9.4", "(*solver.Solver).AppendClause bounds", w.Pos(fn.Pos()), "state space too large")
+		return
+	}
+	zero := linForm{terms: map[string]int64{}}.String()
+	isWeight := func(s string) bool {
+		// "0+1*tNN": a single call result
+		return strings.HasPrefix(s, "0+1*t") && strings.Count(s, "*") == 1
+	}
+	_ = weightAtom
+	check := func(cls, wantA, wantB, what string) {
+		key := "(*solver.Solver).AppendClause bounds for a literal already " + cls
+		if cls == "unbound" {
+			key = "(*solver.Solver).AppendClause bounds for an unbound literal"
+		}
+		if len(got[cls]) == 0 {
+			r.Bad("R9.4", key, w.Pos(fn.Pos()), "no path of the scan handles this case")
+			return
+		}
+		var bad []string
+		for d := range got[cls] {
+			okA := (wantA == "0" && d.a == zero) || (wantA == "w" && isWeight(d.a))
+			okB := (wantB == "0" && d.b == zero) || (wantB == "w" && isWeight(d.b))
+			if wantA == "w" && wantB == "w" && okA && okB && d.a != d.b {
+				// both must grow by the same weight (two calls of Weight(i) are two registers: accept)
+				okA = true
+			}
+			if !okA || !okB {
+				bad = append(bad, fmt.Sprintf("lower bound changes by %s and upper bound by %s", d.a, d.b))
+			}
+		}
+		if len(bad) > 0 {
+			r.Bad("R9.4", key, w.Pos(fn.Pos()), what+": "+strings.Join(sortedStrings(bad), "; "))
+		} else {
+			r.OK("R9.4", key, w.Pos(fn.Pos()), what)
+		}
+	}
+	check("true", "w", "w", "a true literal must raise both the weight already obtained and the weight still obtainable")
+	check("false", "0", "0", "a false literal contributes to neither bound")
+	check("unbound", "0", "w", "an unbound literal raises only the weight still obtainable")
+}
+
+// R9.5: every forced literal is bound and propagated.
+func ruleR9_5(w *World, r *Report) {
+	r.Rule("R9.5", "the function that propagates new top-level units binds and propagates every literal of its argument: no iteration skips the binding call unless the literal is known to be already true", 1)
+	sat, _ := w.statusConst("Sat")
+	n := 0
+	for _, fn := range w.Fns {
+		if w.PkgName(fn) != "solver" || fn.Signature.Recv() == nil || fn.Signature.Params().Len() != 1 || typeShort(fn.Signature.Params().At(0).Type()) != "[]solver.Lit" {
+			continue
+		}
+		units := fn.Params[1]
+		// binder calls: callee(Lit, decLevel) *Clause with level 1 and the literal an element of units
+		var binders []*ssa.Call
+		for _, ci := range callsIn(fn) {
+			c, ok := ci.(*ssa.Call)
+			if !ok || len(w.Callees[c]) != 1 || typeShort(c.Type()) != "*solver.Clause" {
+				continue
+			}
+			args := c.Call.Args
+			if len(args) < 2 {
+				continue
+			}
+			lvl, okL := constInt(args[len(args)-1])
+			lit := args[len(args)-2]
+			if !okL || lvl != 1 || typeShort(lit.Type()) != "solver.Lit" {
+				continue
+			}
+			if ld, ok := lit.(*ssa.UnOp); ok && ld.Op == token.MUL {
+				if ia, ok := ld.X.(*ssa.IndexAddr); ok && ia.X == ssa.Value(units) {
+					binders = append(binders, c)
+				}
+			}
+		}
+		if len(binders) == 0 {
+			continue
+		}
+		n++
+		key := w.FuncName(fn) + " binds every unit"
+		b0 := binders[0]
+		var header *ssa.BasicBlock
+		for _, h := range loopHeaders(fn) {
+			if loopBlocks(fn, h)[b0.Block()] {
+				header = h
+			}
+		}
+		if header == nil {
+			r.Bad("R9.5", key, w.InstrPos(b0), "the binding call is not in a loop over the units")
+			continue
+		}
+		lit := b0.Call.Args[len(b0.Call.Args)-2]
+		skipped := map[string]bool{}
+		body := header.Succs[0]
+		exploreEdges(body, &pstate{phi: map[*ssa.Phi]ssa.Value{}, facts: map[string]string{}},
+			func(b *ssa.BasicBlock) bool { return b == header || !loopBlocks(fn, header)[b] },
+			func(ins ssa.Instruction, st *pstate) {
+				if ins == ssa.Instruction(b0) {
+					st.facts["bound"] = "yes"
+				}
+				if c, ok := ins.(*ssa.Call); ok && typeShort(c.Type()) == "solver.Status" {
+					for _, a := range c.Call.Args {
+						if a == lit {
+							st.facts["statusOf"] = st.vkey(c)
+						}
+					}
+				}
+			},
+			func(from, to *ssa.BasicBlock, st *pstate) {
+				if to != header || st.facts["bound"] == "yes" {
+					return
+				}
+				if k := st.facts["statusOf"]; k != "" && st.facts[k] == fmt.Sprintf("=%d", sat) {
+					return // already true: nothing to do
+				}
+				skipped[w.InstrPos(from.Instrs[len(from.Instrs)-1])] = true
+			})
+		if len(skipped) > 0 {
+			var ps []string
+			for p := range skipped {
+				ps = append(ps, p)
+			}
+			r.Bad("R9.5", key, w.InstrPos(b0), "an iteration can go on to the next unit without binding the current one (continue at "+strings.Join(sortedStrings(ps), ", ")+"): a forced literal, or the conflict it causes, is silently dropped")
+		} else {
+			r.OK("R9.5", key, w.InstrPos(b0), "every iteration that goes on has called the binder on the current unit")
+		}
+	}
+	if n == 0 {
+		r.Unk("R9.5", "unit propagation function", "-", "no method of package solver taking []Lit binds its elements at level 1")
+	}
 }
